@@ -8,14 +8,16 @@ import typing as t
 
 
 def sid_to_bytes(sid: str) -> bytes:
-    sid_pattern = re.compile(r"^S-(\d)-(\d+)(?:-\d+){1,15}$")
-    sid_match = sid_pattern.match(sid)
+    sid_pattern = re.compile(r"S-([0-9])-([0-9]+)(?:-[0-9]+){1,15}")
+    sid_match = sid_pattern.fullmatch(sid)
     if not sid_match:
         raise ValueError(f"Input string '{sid}' is not a valid SID string")
 
     sid_split = sid.split("-")
     revision = int(sid_split[1])
     authority = int(sid_split[2])
+    if authority >= 2**48 or any(int(s) >= 2**32 for s in sid_split[3:]):
+        raise ValueError(f"Input string '{sid}' is not a valid SID string")
 
     data = bytearray(authority.to_bytes(8, byteorder="big"))
     data[0] = revision
